@@ -165,6 +165,9 @@ func RunWith(c *gen.Ctx, prop string, cfgs []xeng.Config, nops, perOp int, singl
 	return RunFull(c, prop, cfgs, nops, perOp, singleFaults, false)
 }
 
+// ExtraChecks, when set, runs additional model-free observations on the built probes and adds direct findings.
+var ExtraChecks func(prop string, probes []xeng.Probe, meta *gen.Meta) error
+
 // RunFull: schedules = also run every plan under adversarial resolver delay plans (C06).
 func RunFull(c *gen.Ctx, prop string, cfgs []xeng.Config, nops, perOp int, singleFaults, schedules bool) error {
 	r := gen.NewRand(c.Seed)
@@ -196,6 +199,12 @@ func RunFull(c *gen.Ctx, prop string, cfgs []xeng.Config, nops, perOp int, singl
 		meta.Evaluations = 1
 		meta.Rule = "probe servers could not be built"
 		return meta.Write(c.OutDir)
+	}
+
+	if ExtraChecks != nil {
+		if err := ExtraChecks(prop, probes, meta); err != nil {
+			return err
+		}
 	}
 
 	// ---- operations --------------------------------------------------------------------------------
